@@ -148,6 +148,9 @@ pub enum Op {
     ReadText,
     /// config_mut(): set switch `bit` to `on`
     Flip { bit: u8, on: bool },
+    /// read `n` raw bytes through Reader::stream(): via 0 = Read::read_exact /
+    /// AsyncReadExt::read_exact, 1 = fill_buf + consume loops, 2 = single read() calls
+    Raw { n: u16, via: u8 },
 }
 
 #[derive(Serialize, Deserialize, Clone, Copy, Debug, PartialEq, Eq, Hash)]
@@ -263,6 +266,8 @@ pub enum Build {
     Decl { version: String, encoding: Option<String>, standalone: Option<String> },
     /// BytesText::from_escaped(s) as DocType
     DocType(String),
+    /// Event::Eof written in the middle of the sequence (writes nothing)
+    Eof,
     /// Writer::create_element(name).with_attribute(..)* then one of the content calls
     Builder { name: String, attrs: Vec<(String, String)>, content: BuilderContent },
 }
